@@ -27,6 +27,8 @@
 //@stub ^_ZNSt13basic_istreamIwSt11char_traitsIwEE5seekgESt4fposI11__mbstate_tE$ c12_wseekg
 //@stub ^_ZNSt9basic_iosIwSt11char_traitsIwEE5clearESt12_Ios_Iostate$ c12_wclear
 //@stub ^_ZN5fcppt5parse6detail8expectedIwEE c12_wexpected
+//@stub ^_ZN5fcppt23output_to_string_localeI.*9container6detail6outputISt13unordered_setIc c12_set_text
+//@stub ^_ZN5fcppt23output_to_string_localeI.*9container6detail6outputISt13unordered_setIw c12_wset_text
 //@stub ^_ZN5fcppt5parse6detail8expectedIcEENS0_5errorIT_EENS0_8positionIS4_EEONSt7__cxx1112basic_stringIS4_St11char_traitsIS4_ESaIS4_EEES4_$ c12_expected
 #include "C12_istream_model.hpp"
 #include <fcppt/make_ref.hpp>
@@ -48,7 +50,16 @@
 #include <fcppt/parse/set_position.hpp>
 #include <fcppt/parse/detail/expected.hpp>
 #include <fcppt/parse/detail/stream_impl.hpp>
+#include <fcppt/parse/basic_char_set.hpp>
+#include <fcppt/parse/blank.hpp>
+#include <fcppt/parse/blank_set.hpp>
+#include <fcppt/parse/digits.hpp>
+#include <fcppt/parse/space.hpp>
+#include <fcppt/parse/space_set.hpp>
+#include <fcppt/container/output.hpp>
+#include <fcppt/parse/skipper/basic_char_set.hpp>
 #include <fcppt/parse/skipper/basic_literal.hpp>
+#include <unordered_set>
 #include <fcppt/parse/skipper/epsilon.hpp>
 #include <fcppt/parse/skipper/run.hpp>
 #include "libs/core/src/insert_extract_locale.cpp"
@@ -123,6 +134,9 @@ void log_expected(p::position<Ch> const &pos, Ch const got)
 }
 }
 
+// engine-only replacement of the char-set formatting (ostringstream) that produces the "expected" text
+extern "C" std::string c12_set_text(fcppt::container::detail::output<std::unordered_set<char>> const &, std::locale const &) { return std::string{"{set}"}; }
+extern "C" std::wstring c12_wset_text(fcppt::container::detail::output<std::unordered_set<wchar_t>> const &, std::locale const &) { return std::wstring{L"{set}"}; }
 extern "C" p::error<char> c12_expected(p::position<char> const pos, std::string &&, char const got)
 {
   log_expected(pos, got);
@@ -342,10 +356,57 @@ VERIF_HARNESS(h_wstate_set) { state_set<wchar_t>(); }
 //@harness h_state_set tier=quick loop=40 throws=_ZTIN5fcppt5parse6detail9exceptionIcEE
 //@harness h_wstate_set tier=quick loop=40 throws=_ZTIN5fcppt5parse6detail9exceptionIwEE
 
-// character-level parsers: the error carries the location immediately AFTER the offending character
-// (engine: detail::expected is intercepted and its position argument logged; natively only the outcome is compared)
-template <typename Ch, typename Run>
-void expected_case(unsigned const n, Run const &run)
+namespace
+{
+// character-level parsers: the error carries the location immediately AFTER the offending character.
+// The REAL parsers (basic_literal, basic_char_set incl. space() / blank() / digits(), skipper::basic_literal,
+// skipper::basic_char_set; char and wchar_t) run on the real detail::stream; the engine intercepts detail::expected
+// (//@stub -> c12_expected / c12_wexpected) and records the position argument THE PARSER passed; natively the real
+// detail::expected formats it into the message and the harness reads line/column/character back from that text, so a
+// counterexample is confirmed by the native replay.
+template <typename Ch>
+struct outcome
+{
+  bool ok;
+  std::basic_string<Ch> text; // the error message (native build: produced by the real detail::expected)
+};
+#ifdef VERIF_NATIVE
+// native build: recover what the parser passed to detail::expected from the message "Line <l>:<c>: Expected ..., got <ch>"
+template <typename Ch>
+void log_from_text(std::basic_string<Ch> const &t)
+{
+  std::size_t i = 0;
+  auto const lit = [&t, &i](char const *const w) {
+    for (char const *q = w; *q != 0; ++q, ++i)
+      if (i >= t.size() || t[i] != Ch(*q))
+        return false;
+    return true;
+  };
+  auto const num = [&t, &i](u64 &out) {
+    out = 0;
+    bool any = false;
+    while (i < t.size() && t[i] >= Ch('0') && t[i] <= Ch('9'))
+    {
+      out = out * 10 + static_cast<u64>(t[i] - Ch('0'));
+      ++i;
+      any = true;
+    }
+    return any;
+  };
+  if (!lit("Line "))
+    return;
+  u64 l = 0, c = 0;
+  if (!num(l) || !lit(":") || !num(c) || !lit(": Expected "))
+    return;
+  ++elog.calls;
+  elog.has_loc = true;
+  elog.line = l;
+  elog.column = c;
+  elog.got = t.empty() ? 0 : code(t[t.size() - 1]);
+}
+#endif
+template <typename Ch, typename Run, typename Accept>
+void expected_case(unsigned const n, Run const &run, Accept const &accept)
 {
   c12::set_text_symbolic_ch<Ch>(n);
   c12::basic_holder<Ch> h{};
@@ -356,42 +417,85 @@ void expected_case(unsigned const n, Run const &run)
   for (unsigned i = 0; i < skip; ++i)
     (void)p::get_char(ref);
   elog = expected_log{0, 0, false, 0, 0, 0};
-  bool const ok = run(ref);
+  outcome<Ch> const r{run(ref)};
+  bool const ok = r.ok;
   verif_out("ok", ok);
   bool const at_end = skip >= n;
-  verif_assert(ok == (!at_end && msv<Ch>.text[at_end ? 0 : skip] == Ch('a')), "literal a succeeds exactly on an a");
-#ifndef VERIF_NATIVE
+  verif_assert(ok == (!at_end && accept(msv<Ch>.text[at_end ? 0 : skip])), "the parser succeeds exactly on a character of its set");
+#ifdef VERIF_NATIVE
+  if (!ok)
+    log_from_text(r.text);
+#endif
   if (!ok && !at_end)
   {
     verif_assert(elog.calls == 1, "one expected() error is built");
     verif_assert(elog.got == code(msv<Ch>.text[skip]), "it names the offending character");
     loc const e{ref_loc<Ch>(static_cast<long>(skip) + 1)};
+#ifndef VERIF_NATIVE
     verif_assert(elog.pos == static_cast<long>(skip) + 1, "position just after the offending character");
+#endif
     verif_assert(elog.has_loc && elog.line == e.line && elog.column == e.column, "location just after the offending character");
   }
   else
     verif_assert(elog.calls == 0, "no expected() error on success or at end of input");
-#endif
   verif_reach("end");
 }
-VERIF_HARNESS(h_expected_literal)
+unsigned plen() { return static_cast<unsigned>(verif_param("n")); }
+template <typename Ch>
+bool is_a(Ch const c) { return c == Ch('a'); }
+template <typename Ch>
+bool is_ab(Ch const c) { return c == Ch('a') || c == Ch('b'); }
+template <typename Ch>
+bool is_space(Ch const c) { return c == Ch(' ') || c == Ch('\n') || c == Ch('\t'); }
+template <typename Ch>
+bool is_blank(Ch const c) { return c == Ch(' ') || c == Ch('\t'); }
+template <typename Ch>
+bool is_digit(Ch const c) { return c >= Ch('0') && c <= Ch('9'); }
+template <typename Ch, typename Parser>
+auto by_parser(Parser const &parser)
 {
-  expected_case<char>(static_cast<unsigned>(verif_param("n")), [](stream_ref<char> const ref) {
-    return p::basic_literal<char>{'a'}.parse(ref, p::skipper::epsilon{}).has_success();
-  });
+  return [&parser](stream_ref<Ch> const ref) {
+    auto const r{parser.parse(ref, p::skipper::epsilon{})};
+    return outcome<Ch>{r.has_success(), r.has_success() ? std::basic_string<Ch>{} : r.get_failure_unsafe().get()};
+  };
 }
-VERIF_HARNESS(h_expected_skipper)
+template <typename Ch, typename Skipper>
+auto by_skipper(Skipper const &skipper)
 {
-  expected_case<char>(static_cast<unsigned>(verif_param("n")), [](stream_ref<char> const ref) {
-    return p::skipper::run(p::skipper::basic_literal<char>{'a'}, ref).has_success();
-  });
+  return [&skipper](stream_ref<Ch> const ref) {
+    auto const r{p::skipper::run(skipper, ref)};
+    return outcome<Ch>{r.has_success(), r.has_success() ? std::basic_string<Ch>{} : r.get_failure_unsafe().get()};
+  };
 }
-VERIF_HARNESS(h_wexpected_literal)
+}
+VERIF_HARNESS(h_expected_literal) { expected_case<char>(plen(), by_parser<char>(p::basic_literal<char>{'a'}), is_a<char>); }
+VERIF_HARNESS(h_expected_skipper) { expected_case<char>(plen(), by_skipper<char>(p::skipper::basic_literal<char>{'a'}), is_a<char>); }
+VERIF_HARNESS(h_wexpected_literal) { expected_case<wchar_t>(plen(), by_parser<wchar_t>(p::basic_literal<wchar_t>{L'a'}), is_a<wchar_t>); }
+VERIF_HARNESS(h_wexpected_skipper) { expected_case<wchar_t>(plen(), by_skipper<wchar_t>(p::skipper::basic_literal<wchar_t>{L'a'}), is_a<wchar_t>); }
+VERIF_HARNESS(h_expected_set) { expected_case<char>(plen(), by_parser<char>(p::basic_char_set<char>{'a', 'b'}), is_ab<char>); }
+VERIF_HARNESS(h_expected_space) { expected_case<char>(plen(), by_parser<char>(p::space()), is_space<char>); }
+VERIF_HARNESS(h_expected_blank) { expected_case<char>(plen(), by_parser<char>(p::blank()), is_blank<char>); }
+VERIF_HARNESS(h_expected_digits) { expected_case<char>(plen(), by_parser<char>(p::digits<char>()), is_digit<char>); }
+VERIF_HARNESS(h_expected_skipset) { expected_case<char>(plen(), by_skipper<char>(p::skipper::basic_char_set<char>{' ', '\t'}), is_blank<char>); }
+VERIF_HARNESS(h_wexpected_set) { expected_case<wchar_t>(plen(), by_parser<wchar_t>(p::basic_char_set<wchar_t>{L'a', L'b'}), is_ab<wchar_t>); }
+VERIF_HARNESS(h_wexpected_space)
 {
-  expected_case<wchar_t>(static_cast<unsigned>(verif_param("n")), [](stream_ref<wchar_t> const ref) {
-    return p::basic_literal<wchar_t>{L'a'}.parse(ref, p::skipper::epsilon{}).has_success();
-  });
+  expected_case<wchar_t>(plen(), by_parser<wchar_t>(p::basic_char_set<wchar_t>{p::space_set<wchar_t>()}), is_space<wchar_t>);
+}
+VERIF_HARNESS(h_wexpected_digits) { expected_case<wchar_t>(plen(), by_parser<wchar_t>(p::digits<wchar_t>()), is_digit<wchar_t>); }
+VERIF_HARNESS(h_wexpected_skipset)
+{
+  expected_case<wchar_t>(plen(), by_skipper<wchar_t>(p::skipper::basic_char_set<wchar_t>{p::blank_set<wchar_t>()}), is_blank<wchar_t>);
 }
 //@harness h_expected_literal param n=0..4 tier=quick loop=40
 //@harness h_expected_skipper param n=0..4 tier=quick loop=40
 //@harness h_wexpected_literal param n=0..4 tier=quick loop=40
+//@harness h_wexpected_skipper param n=0..3 tier=quick loop=40
+//@harness h_expected_{S} for S in set,space,blank,skipset param n=0..3 tier=quick loop=40
+//@harness h_expected_digits param n=0..2 tier=quick loop=40
+//@harness h_expected_digits param n=3..3 tier=thorough loop=40
+//@harness h_wexpected_{S} for S in set,space,skipset param n=0..3 tier=quick loop=40
+//@harness h_wexpected_digits param n=0..2 tier=quick loop=40
+//@harness h_wexpected_digits param n=3..3 tier=thorough loop=40
+//@harness h_expected_{S} for S in set,space,blank,skipset param n=4..4 tier=thorough loop=40
+//@harness h_wexpected_{S} for S in set,space,skipset param n=4..4 tier=thorough loop=40
